@@ -13,31 +13,9 @@ def memberJ' (m : JMember) : Json :=
 /-- support classes generated once per program: `NativeRunnable` (async on a C++ interface) and
     `NativeCompletion` (async on a Java interface) -/
 def supportModel (c : Cfg) (runnable completion : Bool) : Json :=
-  let jniCls (n : String) : String := joinS "/" (c.java.package ++ c.java.supportPackage ++ [n])
-  let javaCls (n : String) : String := joinS "/" (c.java.package ++ c.java.supportPackage ++ [n])
-  let spkg : List String := c.java.package ++ c.java.supportPackage
-  let pfx (n : String) : String := jniPrefix (spkg ++ [n])
-  let lookups := (if runnable then proxyLookups (jniCls "NativeRunnable") else []) ++ (if completion then proxyLookups (jniCls "NativeCompletion") else [])
-  let exports : List Export :=
-    (if runnable then
-      [{ symbol := pfx "NativeRunnable" ++ "_nativeRun", ret := "void", recv := "jobject", params := ["jlong"] },
-       { symbol := pfx "NativeRunnable" ++ "_00024CleanupTask_nativeDestroy", ret := "void", recv := "jobject", params := ["jlong"] }] else []) ++
-    (if completion then
-      [{ symbol := pfx "NativeCompletion" ++ "_nativeSuccess", ret := "void", recv := "jobject", params := ["jlong", "jobject"] },
-       { symbol := pfx "NativeCompletion" ++ "_nativeException", ret := "void", recv := "jobject", params := ["jlong", "jthrowable"] },
-       { symbol := pfx "NativeCompletion" ++ "_00024CleanupTask_nativeDestroy", ret := "void", recv := "jobject", params := ["jlong"] }] else [])
-  let obj : JType := .cls ["java", "lang"] "Object" []
-  let thr : JType := .cls ["java", "lang"] "Throwable" []
-  let members : List JMember :=
-    (if runnable then
-      proxyMembers spkg "NativeRunnable" ++
-      [{ pkg := spkg, cname := "NativeRunnable", kind := "method", name := "nativeRun", isStatic := false, isNative := true, params := [jlong], ret := none }] else []) ++
-    (if completion then
-      proxyMembers spkg "NativeCompletion" ++
-      [{ pkg := spkg, cname := "NativeCompletion", kind := "method", name := "nativeSuccess", isStatic := false, isNative := true, params := [jlong, obj], ret := none },
-       { pkg := spkg, cname := "NativeCompletion", kind := "method", name := "nativeException", isStatic := false, isNative := true, params := [jlong, thr], ret := none }] else [])
-  Json.mkObj [("lookups", Json.arr (lookups.map lookupJ).toArray), ("exports", Json.arr (exports.map exportJ).toArray),
-              ("members", Json.arr (members.map memberJ').toArray),
+  Json.mkObj [("lookups", Json.arr ((supportLookups c.java runnable completion).map lookupJ).toArray),
+              ("exports", Json.arr ((supportExports c.java runnable completion).map exportJ).toArray),
+              ("members", Json.arr ((supportMembers c.java runnable completion).map memberJ').toArray),
               ("dom", strsJ [])]
 
 def modelOp (req : Json) : Except String Json := do
@@ -50,10 +28,7 @@ def modelOp (req : Json) : Except String Json := do
                 ("members", Json.arr ((javaMembers cm.cfg.java d).map memberJ').toArray),
                 ("java_class", javaClassName cm.cfg.java d), ("jni_class", jniClassDescriptor cm.cfg.java cm.cfg.jni (declTDef d)),
                 ("dom", strsJ (domViolations cm.cfg.java cm.cfg.jni d))])
-  let asyncOn (target : String) : Bool := decls.any (fun d => match d with
-    | .interface u ms => u.targets.contains target && ms.any (·.isAsync)
-    | _ => false)
-  pure (Json.mkObj [("out", Json.arr out.toArray), ("support", supportModel cm.cfg (asyncOn "cpp") (asyncOn "java"))])
+  pure (Json.mkObj [("out", Json.arr out.toArray), ("support", supportModel cm.cfg (asyncOn "cpp" decls) (asyncOn "java" decls))])
 
 def descOp (req : Json) : Except String Json := do
   let ts ← getArr req "types"
